@@ -1,4 +1,256 @@
+"""C09, complex part: CBigComplexLinProb (cspars.cpp) vs. coq/theories/CSparse.v."""
+import math, os
+from fractions import Fraction
+import vlib
+from props import c09
+
+HEADER = c09.HEADER
+FUEL = 3000
+
+
+def cz(rng, s=1.0):
+    return (c09.rnd(rng, s), c09.rnd(rng, s))
+
+
+def gen_script(rng, k):
+    n = rng.randint(2, 11)
+    extra = rng.choice([0, 0, 1, 2]) if n > 4 else 0      # circuit-like unknowns beyond NumNodes
+    nodes = n - extra
+    edges = [(i, j) for (i, j) in c09.fe_pattern(rng, nodes)]
+    ops = []
+    omega = rng.choice([0.0, 0.5, 2.0, 50.0])
+    contrib = []
+    for (i, j) in edges:
+        w = abs(c09.rnd(rng)) + 0.1
+        m = (abs(c09.rnd(rng)) + 0.05) * omega
+        # stiffness + j*omega*sigma*consistent mass, as harmonic2d assembles
+        contrib += [("addto", (w, 2 * m), i, i), ("addto", (w, 2 * m), j, j), ("addto", (-w, m), i, j)]
+    for i in range(nodes):
+        if rng.random() < 0.5 or i == 0:
+            contrib.append(("addto", (abs(c09.rnd(rng)) + 0.05, 0.0), i, i))
+    for e in range(nodes, n):
+        contrib.append(("addto", (abs(c09.rnd(rng)) + 1.0, abs(c09.rnd(rng))), e, e))
+        for _ in range(rng.randint(1, 3)):
+            contrib.append(("addto", cz(rng, 0.2), rng.randrange(nodes), e))
+    rng.shuffle(contrib)
+    ops += contrib
+    truebw = max([j - i for (i, j) in edges] + [0])
+    bw = rng.choice([0, truebw + 1, truebw + 2, n])
+    for i in range(n):
+        if rng.random() < 0.8:
+            ops.append(("setb", i, cz(rng)))
+    cons = []
+    used = set()
+    for _ in range(rng.randint(0, 3)):
+        r = rng.random()
+        if r < 0.45:
+            i = rng.randrange(nodes)
+            if i not in used:
+                used.add(i)
+                cons.append(("setvalue", i, cz(rng)))
+        elif nodes >= 3:
+            i, j = rng.sample(range(nodes), 2)
+            if i not in used and j not in used:
+                used.update((i, j))
+                cons.append(("periodic" if r < 0.75 else "antiperiodic", i, j))
+    cons.sort(key=lambda o: 0 if o[0] == "setvalue" else 1)
+    ops += cons
+    ops.append(("dump",))
+    for _ in range(rng.randint(1, 4)):
+        ops.append(("get", rng.randrange(n), rng.randrange(n)))
+    x = [cz(rng) for _ in range(n)]
+    ops.append(("multa", x))
+    ops.append(("multpc", x))
+    ops.append(("solve", 0))
+    if rng.random() < 0.4:
+        ops.append(("setb", rng.randrange(n), cz(rng)))
+        ops.append(("solve", 1))
+    return dict(kind="complex", id=k, n=n, bw=bw, nodes=nodes, prec=rng.choice([1e-8, 1e-6]), lam=1.5, ops=ops)
+
+
+def hx(z):
+    return "%s %s" % (float(z[0]).hex(), float(z[1]).hex())
+
+
+def to_text(s):
+    L = ["case %d" % s["id"], "create %d %d %d %s %s" % (s["n"], s["bw"], s["nodes"], float(s["prec"]).hex(), float(s["lam"]).hex())]
+    for o in s["ops"]:
+        k = o[0]
+        if k in ("put", "addto"):
+            L.append("%s %s %d %d" % (k, hx(o[1]), o[2], o[3]))
+        elif k in ("get", "periodic", "antiperiodic"):
+            L.append("%s %d %d" % (k, o[1], o[2]))
+        elif k in ("setb", "setvalue"):
+            L.append("%s %d %s" % (k, o[1], hx(o[2])))
+        elif k in ("multa", "multpc"):
+            L.append(k + " " + " ".join(hx(z) for z in o[1]))
+        elif k == "solve":
+            L.append("solve %d" % o[1])
+        else:
+            L.append(k)
+    L.append("end")
+    return "\n".join(L) + "\n"
+
+
+def cq(z):
+    return "(%s, %s)" % (vlib.fhex(z[0]), vlib.fhex(z[1]))
+
+
+def to_coq(s):
+    ops = []
+    for o in s["ops"]:
+        k = o[0]
+        if k == "put":
+            ops.append("CPut %s %d %d" % (cq(o[1]), o[2], o[3]))
+        elif k == "addto":
+            ops.append("CAddTo %s %d %d" % (cq(o[1]), o[2], o[3]))
+        elif k == "get":
+            ops.append("CGet %d %d" % (o[1], o[2]))
+        elif k == "setb":
+            ops.append("CSetB %d %s" % (o[1], cq(o[2])))
+        elif k == "setvalue":
+            ops.append("CSetValue %d %s" % (o[1], cq(o[2])))
+        elif k == "periodic":
+            ops.append("CPeriodic %d %d" % (o[1], o[2]))
+        elif k == "antiperiodic":
+            ops.append("CAntiPeriodic %d %d" % (o[1], o[2]))
+        elif k == "multa":
+            ops.append("CMultA [%s]" % "; ".join(cq(z) for z in o[1]))
+        elif k == "multpc":
+            ops.append("CMultPC [%s]" % "; ".join(cq(z) for z in o[1]))
+        elif k == "solve":
+            ops.append("CSolve %s %d" % ("true" if o[1] else "false", FUEL))
+        elif k == "dump":
+            ops.append("CDump")
+    return "crun FA (ccreate FA %d %d %d %s %s) [%s]" % (s["n"], s["bw"], s["nodes"], vlib.fhex(s["prec"]), vlib.fhex(s["lam"]), "; ".join(ops))
+
+
+def run_impl(ctx, scripts, solvelog=None):
+    exe = vlib.build_harness(ctx.snap, "h_cspars")
+    txt = "".join(to_text(s) for s in scripts)
+    env = {"XFEMM_VERIF_SOLVELOG": solvelog} if solvelog else {}
+    rc, out, err = vlib.sh([exe], inp=txt, timeout=180, env=env)
+    res, cur = {}, None
+    for line in out.split("\n"):
+        if line.startswith("case "):
+            cur = []
+            res[int(line.split()[1])] = cur
+        elif line.startswith("r") and cur is not None:
+            cur.append([float(t) for t in line.split()[1:]])
+    return rc, res, err
+
+
+def parse_dump(n, dump):
+    b = [complex(dump[-2 * n + 2 * i], dump[-2 * n + 2 * i + 1]) for i in range(n)]
+    ent = dump[:-2 * n]
+    rows, k = [], 0
+    while k < len(ent):
+        cnt = int(ent[k]); k += 1
+        rows.append([(int(ent[k + 3 * t]), complex(ent[k + 3 * t + 1], ent[k + 3 * t + 2])) for t in range(cnt)])
+        k += 3 * cnt
+    return rows, b
+
+
+def oracle(s, outs):
+    """dense complex solve (numpy) of the dumped system vs. the BiCG result; residual."""
+    import numpy as np
+    n = s["n"]
+    A = None
+    for o, out in zip(s["ops"], outs):
+        if o[0] == "dump":
+            rows, b = parse_dump(n, out)
+            if len(rows) != n:
+                return "row structure broken"
+            A = np.zeros((n, n), dtype=complex)
+            for i, r in enumerate(rows):
+                cols = [c for c, _ in r]
+                if cols[0] != i or any(cols[t] >= cols[t + 1] for t in range(len(cols) - 1)):
+                    return "row %d is not (diagonal, strictly increasing columns): %r" % (i, cols)
+                for c, x in r:
+                    A[i, c] = x
+                    A[c, i] = x
+            bv = np.array(b)
+        elif o[0] == "setb" and A is not None:
+            bv = bv.copy()
+            bv[o[1]] = complex(*o[2])
+        elif o[0] == "solve" and A is not None:
+            st = out[0]
+            V = np.array([complex(out[1 + 2 * i], out[2 + 2 * i]) for i in range(n)])
+            if st != 1:
+                return "complex solver reported the singular flag on a regular system"
+            if not np.all(np.isfinite(V)):
+                return "complex solver returned non-finite values"
+            nb = np.linalg.norm(bv)
+            if nb == 0:
+                continue
+            rr = np.linalg.norm(bv - A @ V) / nb
+            if rr > 10 * s["prec"]:
+                return "true relative residual %.3g exceeds 10*Precision" % rr
+            try:
+                x = np.linalg.solve(A, bv)
+            except np.linalg.LinAlgError:
+                continue
+            cond = np.linalg.cond(A)
+            if np.linalg.norm(V - x) > 10 * s["prec"] * cond * max(np.linalg.norm(x), 1e-300):
+                return "solution differs from the dense direct solve by %.3g (cond %.3g)" % (np.linalg.norm(V - x), cond)
+    return None
+
+
 def correspond(ctx):
-    return [], dict(scripts=0, distinct=0, values=0, bit_identical=0)
+    rng = vlib.Rng(ctx.seed + 7)
+    count = 25 if ctx.quick() else 500
+    scripts = [gen_script(rng, k) for k in range(count)]
+    solvelog = os.path.join(ctx.work, "csolvelog")
+    rc, impl, err = run_impl(ctx, scripts, solvelog)
+    stat = dict(scripts=len(scripts), distinct=len(set(to_text(s) for s in scripts)), values=0, bit_identical=0, solve_log=0)
+    dis = []
+    if rc != 0 or len(impl) != len(scripts):
+        ctx.fail("harness driving CBigComplexLinProb terminated abnormally (rc=%d): non-termination or crash" % rc,
+                 stderr=err[-500:], script=scripts[max(len(impl) - 1, 0)])
+        return dis, stat
+    for s in scripts:
+        msg = oracle(s, impl[s["id"]])
+        if msg:
+            ctx.fail("cspars: " + msg, script=dict(s, text=to_text(s).split("\n")))
+    if os.path.exists(solvelog):
+        for line in open(solvelog):
+            t = line.split()
+            if len(t) == 5 and t[0] == "complex":
+                stat["solve_log"] += 1
+                if not (float(t[2]) <= 10 * float(t[3])):
+                    ctx.fail("solve-log hook (complex): true relative residual %s > 10*Precision" % t[2], logline=line)
+    model = vlib.coq_eval(HEADER, [to_coq(s) for s in scripts], shard=50)
+    for s, m in zip(scripts, model):
+        outs = impl[s["id"]]
+        for o, a, mm in zip(s["ops"], outs, m):
+            if o[0] == "solve":
+                if mm[0] == 2:
+                    dis.append(dict(what="cspars correspondence: model out of fuel", script=s)); break
+                mm = [mm[0]] + mm[2:]
+            if len(a) != len(mm):
+                dis.append(dict(what="cspars correspondence: op %r output length %d vs %d" % (o[0], len(a), len(mm)), script=s)); break
+            bad = False
+            for x, y in zip(a, mm):
+                stat["values"] += 1
+                if vlib.ulp_diff(float(x), float(y)) == 0:
+                    stat["bit_identical"] += 1
+                elif not vlib.close(float(x), float(y), 64, 1e-300):
+                    dis.append(dict(what="cspars correspondence: op %r: implementation %r, model %r" % (o[:1], x, y), script=s))
+                    bad = True
+                    break
+            if bad:
+                break
+    return dis, stat
+
+
 def search(ctx, broken):
+    rng = vlib.Rng(ctx.seed + 11)
+    scripts = [gen_script(rng, k) for k in range(300)]
+    rc, impl, err = run_impl(ctx, scripts)
+    for s in scripts:
+        if s["id"] not in impl:
+            return [dict(what="cspars harness produced no output (crash / non-termination)", script=s)]
+        msg = oracle(s, impl[s["id"]])
+        if msg:
+            return [dict(what="cspars: " + msg, script=dict(s, text=to_text(s).split("\n")))]
     return []
